@@ -92,6 +92,12 @@ func heldAt(fn *ssa.Function, mu *types.Var, heldAtEntry bool) map[ssa.Instructi
 }
 
 func runC03(w *World, r *Report) {
+	// ---- computed-tasks-kept: what calculateNextTasks took out of the channels is either started or saved
+	r.Rule("C03.computed-tasks-kept", "every task list returned by calculateNextTasks that reaches a handleInterrupt call is part of the tasks handed to it (a computed task is never dropped: its inputs were already taken out of the channels)", 2)
+	computedTasksKept(w, r, "C03.computed-tasks-kept")
+	r.Rule("C03.resolved-once", "every batch of completed tasks is resolved exactly once: by calculateNextTasks or by the sub-graph/rerun interrupt handler, never both, never neither (shared with C05)", 3)
+	completedOnce(w, r, "C03.resolved-once")
+
 	// ---- visits-all: every submitted / completed task and every target channel is processed
 	r.Rule("C03.visits-all", "the loops over tasks, completed tasks, written channels and ready channels in the scheduler are left only when exhausted or with an error", 8)
 	ruleLoopsTotal(w, r, "C03.visits-all", []*ssa.Function{
@@ -522,4 +528,30 @@ func executorHandoffChecks(w *World, r *Report, rule string) {
 		})
 	}
 
+}
+
+// computedTasksKept: in runner.run, for every call of handleInterrupt, each calculateNextTasks call that dominates
+// it contributes its task list to the handler's nextTasks argument.
+func computedTasksKept(w *World, r *Report, rule string) {
+	run := w.Fn("compose", "runner.run")
+	cnt := w.Fn("compose", "runner.calculateNextTasks")
+	hInt := w.Fn("compose", "runner.handleInterrupt")
+	ti := paramIndex(hInt, "nextTasks")
+	n := 0
+	for _, h := range callsTo(run, hInt) {
+		arg := h.Common().Args[ti]
+		for ci, c := range callsTo(run, cnt) {
+			if !instrDominates(c, h) {
+				continue
+			}
+			n++
+			e := extractOf(c, 0)
+			ok := e != nil && derivesFrom(arg, e)
+			r.Check(ok, rule, fmt.Sprintf("runner.run: handleInterrupt receives the tasks of calculateNextTasks #%d", ci+1), h.Pos(), "the handler's task list derives from that call's result",
+				"the tasks computed by this calculateNextTasks call are not handed to handleInterrupt: their inputs have already been taken out of the channels, so they are neither started nor saved — the resumed run fails with 'no tasks to execute' (only when a parallel node was still in flight, i.e. depending on completion order)")
+		}
+	}
+	if n < 2 {
+		undecidedf("%s: %d (calculateNextTasks, handleInterrupt) pairs in run (floor 2)", rule, n)
+	}
 }
